@@ -31,6 +31,9 @@ PROPS = {
     "C06": dict(level="exploration", lanes=[("hlmon", dict(runner="keyfam"))]),
     "C07": dict(level="exploration", lanes=[("hlmon", dict(runner="dupfam"))]),
     "C08": dict(level="exploration", lanes=[("hlmon", dict(runner="orderfam"))]),
+    "C09": dict(level="exploration", lanes=[("hlmon", dict(runner="conc_retry")), ("hlmon", dict(runner="blockfam"))]),
+    "C10": dict(level="exploration", lanes=[("hlmon", dict(runner="poisonfam")), ("hlmon", dict(runner="poisonsoak"))]),
+    "C11": dict(level="fault_enumeration", lanes=[("hlmon", dict(runner="panicfam")), ("hlmon", dict(runner="conc_panic")), ("hlmon", dict(runner="seqfam"))]),
     "C13": dict(level="exploration", lanes=[("hlmon", dict(runner="tryfam"))]),
     "C17": dict(level="exploration", lanes=[("hlmon", dict(runner="nonacqfam")), CONC]),
 }
@@ -64,6 +67,13 @@ def build_harness():
     return True, "built in %.1fs" % (time.time() - t0)
 
 
+def load_known():
+    if not os.path.exists(KNOWN):
+        return []
+    d = json.load(open(KNOWN))
+    return d.get("findings", [])
+
+
 def lane_hlmon(prop, tier, seed, jobs, params):
     os.makedirs(RAW, exist_ok=True)
     runner = params["runner"]
@@ -83,6 +93,9 @@ def lane_hlmon(prop, tier, seed, jobs, params):
     if tier == "thorough":
         cmd.append("--thorough")
     cmd += params.get("args", [])
+    known = [k["signature"] for k in load_known()]
+    if known:
+        cmd += ["--known", ";".join(known)]
     timeout = params.get("timeout", 3600 if tier == "thorough" else 900)
     t0 = time.time()
     try:
@@ -145,6 +158,15 @@ def run_property(prop, tier, seed, jobs):
             else:
                 others[v["prop"]] = others.get(v["prop"], 0) + 1
     new, reproduced = [], {}
+    for r in results:
+        for h in r.get("known_hits", []):
+            if h["prop"] != prop:
+                continue
+            k = next((k for k in known if k["signature"] == h["signature"]), None)
+            if k is None:
+                continue
+            e = reproduced.setdefault(k["signature"], dict(k=k, n=0, example=h))
+            e["n"] += h["count"]
     for v in mine:
         k = next((k for k in known if k["signature"] == v["signature"]), None)
         if k is not None:
